@@ -37,6 +37,17 @@ CHECKS = {
         note="masters hold strobed requests (Wishbone classic); data identity by tags (master id in dat_w, slave id in "
              "dat_r); bounds 3x3; known finding: registered decode + zero-latency slave (listed)",
         ref="4 (C06)"),
+    "C11": dict(
+        technique="TLA+ contract (WbIcContract time-out clauses, ErrCounterGraph) model-checked by TLC on the closed-loop "
+                  "product of masters and FAULTY slaves (silent forever / late / answering in the expiry cycle) with the "
+                  "transition graph of the real interconnect+Timeout netlist; liveness Recovers",
+        text="TLC chooses which slave stops answering and when, unmapped addresses, late answers in the very cycle the "
+             "timer expires, for time-outs 1..4 on shared interconnects (1-3 masters); TerminatedInTime, ErrorIndication, "
+             "NoDisturbance and the routing clauses are invariants of every reachable state; the SoC error counter is "
+             "explored from reset and from a seeded state 4 counts below 2^32-1.",
+        note="Wishbone only so far (AXI-Lite/AXI time-outs are added with the C08 family); the default 10^6-cycle "
+             "time-out is the same netlist with a wider counter; known finding: wishbone.Crossbar has no time-out",
+        ref="4 (C11)"),
     "C15": dict(
         technique="TLA+ contract (EventContract) model-checked by TLC on the closed-loop product of free trigger "
                   "waveforms and CSR bus operations with the transition graph of the real EventManager+CSRBank netlist",
